@@ -658,8 +658,24 @@ def rule_T13(ctx):
             n += 1
             a = args[role[d]]
             kinds = set()
-            for o in body.origins(a):
+            origins = list(body.origins(a))
+            # a value obtained from a private parser helper (`enclosing_group_node(&stack)`): what that helper returns
+            expanded = []
+            for o in origins:
+                dd = callee(o) if o.get("k") in ("Call", "MethodCall") else None
+                g = F.fns.get(dd) if dd else None
+                if g is not None and g["crate"] == "garnish_lang_compiler" and "::parse::" in g["path"] and g["kind"] != "Closure" and g.get("hir") and dd not in role:
+                    from .origin import return_exprs
+                    gb = Body(g)
+                    for re_ in return_exprs(g):
+                        expanded.extend(gb.origins(re_))
+                else:
+                    expanded.append(o)
+            for o in expanded:
                 k = o.get("k")
+                if k == "Param" and o not in origins:
+                    kinds.add("group-stack-entry" if any("Vec<" in (b.get("ty") or "") or "[" in (b.get("ty") or "") for b in [o]) else "helper-param")
+                    continue
                 if k == "Param":
                     pn = f["params"][o["index"]].get("name") if o["index"] < len(f.get("params", [])) else "?"
                     kinds.add("forwarded" if o["index"] == role.get(f["path"], -1) else "param:" + str(pn))
